@@ -144,7 +144,13 @@ func ruleC07KeyRewrite(c *Ctx) {
 			}
 			// is the first SET column the name column? The column is a Sprintf operand: models.HeaderColumns.Name
 			setsName := false
-			ast.Inspect(cs.Call.Args[0], func(m ast.Node) bool {
+			var queryExpr ast.Node = cs.Call.Args[0]
+			if o := objOfIdent(info, cs.Call.Args[0]); o != nil {
+				if st, _, _ := defOf(f, o); st != nil && len(st.Rhs) == 1 {
+					queryExpr = st.Rhs[0] // the statement text was hoisted into a local
+				}
+			}
+			ast.Inspect(queryExpr, func(m ast.Node) bool {
 				if call, ok := m.(*ast.CallExpr); ok && isPkgFunc(calleeObj(info, call), "fmt", "Sprintf") && len(call.Args) >= 3 {
 					if se, ok := ast.Unparen(call.Args[2]).(*ast.SelectorExpr); ok && (se.Sel.Name == "Name" || se.Sel.Name == "Linkname") {
 						setsName = true
@@ -185,7 +191,7 @@ func ruleC07KeyRewrite(c *Ctx) {
 				"destination key checked/cleared before the primary key is rewritten", "the primary key (name) is rewritten without checking or clearing the destination key: if the new name already holds a row - live, or a tombstone left by an earlier delete or by a previous pass over the same tape - the statement fails on the UNIQUE constraint, so re-indexing a history with a rename does not converge")
 		}
 	}
-	if n < 2 {
+	if n < half(2) {
 		c.unresolved("only %d raw primary-key rewrites found in pkg/persisters (expected 2 in MoveHeader)", n)
 	}
 }
